@@ -240,8 +240,8 @@ sensor count `N ≥ 1`, window `W` and compressed vectors `u`, `x`, the function
 nested loops over blocks, rows and columns, each class handled through the translated `compute_lambda_sum`,
 `locations_compressed` and `soft_threshold_prox`) raises nothing and returns `Numeric.zUpdate`. -/
 theorem admm_update_z_eq (rho : α) (lam : Py.Lambda α) (N W : Nat) (us xs : List α)
-    (mi : Int := 1000) (vb : Bool := false) (cb : Option (α → α → α → α → α → α) := none) :
-    ∃ z, Gen.admm_update_z ⟨(W : Int), (N : Int), rho, lam, mi, vb, cb⟩ (arrOf us) (arrOf xs) = .ok z ∧
+    (mi : Int := 1000) (vb : Bool := false) (cb : Option (α → α → α → α → α → α) := none) (atol : α := 0) (rtol : α := 0) :
+    ∃ z, Gen.admm_update_z ⟨(W : Int), (N : Int), rho, lam, mi, vb, cb, atol, rtol⟩ (arrOf us) (arrOf xs) = .ok z ∧
       z.toList = Numeric.zUpdate rho (lamOf lam) N W us xs := by
   let tpu : Py.Arr1 α := Py.Arr1.add (arrOf xs) (arrOf us)
   let z0 : Py.Arr1 α := Py.Arr1.const (Py.Arr1.size (arrOf xs)) (0 : α)
